@@ -128,6 +128,11 @@ def families(rng, quick):
         P.append((prog, ""))
         # with a read first so that nothing is pre-executed at level 2
         P.append(([C(5, 1, 0), C(1, 1, 3), C(5, 1, 3)] + prog, "w"))
+    # run-time support of the emitted program (push / pop / stdin refill / NaN rule) on long straight-line programs
+    for v in range(5 if quick else 60):
+        prog = M.prelude_stress(rng, 150)
+        for inp in ("", M.PRELUDE_INPUT):
+            P.append((prog, inp))
     # every prefix/residual split point of a fixed 12-command program
     base = [C(0, 72, 1), C(1, 1, 1), C(0, 1, 2), C(4, 1, 4), C(0, 105, 1, H(2)), C(1, 1, 1), C(0, 1, 3), C(3, 1, 4), C(0, 33, 1), C(1, 1, 1, H(4)),
             C(0, 10, 1), C(1, 1, 1)]
@@ -151,7 +156,7 @@ def check_c03(pid, tier, seed, replay):
     quick = tier == "quick"
     rng = random.Random(seed)
     progs = 0
-    plan = [("opt2", 3, 14, 2, 250), ("ret", 5, 18, 3, 150)] if quick else [("opt2", 3, 16, 2, 8000), ("ret", 6, 22, 3, 8000), ("io", 2, 10, 2, 4000), ("control", 3, 14, 2, 8000)]
+    plan = [("opt2", 3, 14, 2, 150), ("ret", 5, 18, 3, 80)] if quick else [("opt2", 3, 16, 2, 8000), ("ret", 6, 22, 3, 8000), ("io", 2, 10, 2, 4000), ("control", 3, 14, 2, 8000)]
     for slice_, ml, steps, budget, cap in plan:
         cases, n = mc_compile(ck, slice_, ml, steps, budget, ("Compiled0", "Compiled1", "Compiled2", "Alone", "Dispatch"), dump=True,
                               maxblocks=64 if slice_ == "opt2" else 2)
@@ -171,7 +176,7 @@ def check_c03(pid, tier, seed, replay):
         ck.sample(M.prog_text(json.loads(pick[0])["prog"]))
     mc_compile(ck, "opt2", 3, 14, 2, ("Reach_JumpBackIntoPrefix",), expect_violation="Reach_JumpBackIntoPrefix")
     mc_compile(ck, "ret", 6, 20, 3, ("Reach_PendingLast",), expect_violation="Reach_PendingLast")
-    tc = families(rng, quick) + M.gen_cases(rng, 60 if quick else 2500)
+    tc = families(rng, quick) + M.gen_cases(rng, 45 if quick else 2500)
     work = tmpdir("c03_T")
     cpath = os.path.join(work, "cases.json")
     M.write_cases(cpath, tc)
@@ -180,7 +185,7 @@ def check_c03(pid, tier, seed, replay):
     progs += len(tc)
     # label / conditional jump / return-jump stress (several return jumps after one label jump, returns
     # with nothing pending, jumps to a label from its own command ...), levels 0 and 2
-    rj = [{"prog": M.retjump_soup(rng, rng.randint(6, 14)), "input": []} for _ in range(120 if quick else 2500)]
+    rj = [{"prog": M.retjump_soup(rng, rng.randint(6, 14)), "input": []} for _ in range(90 if quick else 2500)]
     rj += [{"prog": M.fwdjump_family(rng), "input": []} for _ in range(30 if quick else 500)]
     rj += [{"prog": [M.C(5, 1, 0), M.C(5, 1, 3)] + c["prog"], "input": M.cps("a")} for c in rj[:20 if quick else 500]]
     cpath2 = os.path.join(work, "cases_rj.json")
@@ -188,7 +193,7 @@ def check_c03(pid, tier, seed, replay):
     obs = M.run_obs(ck, cpath2, "c03_RJ", levels="", clevels="0,2", bound=400, timeout_ms=400)
     M.validate_traces(ck, obs, 14, classify_c03, "T-retjump")
     progs += len(rj)
-    mechanism_binding_compile(ck, tc[:300 if quick else 3000] + rj[:100 if quick else 1000])
+    mechanism_binding_compile(ck, tc[:150 if quick else 3000] + rj[:60 if quick else 1000])
     ck.cov["programs"] = progs * 3
     ck.cov["disagreements_checked"] = progs * 3
     ck.cov["vacuity"]["T_programs"] = len(tc)
